@@ -373,6 +373,52 @@ def rule_scheduler_state_is_per_instance(rep, repo):
   return n
 
 
+def rule_factor_steers_no_python_branch(rep, repo):
+  """R8: the noise factor may be a tf.Variable that a schedule updates
+  between steps; inside a traced step a Python-level decision taken on its
+  CURRENT VALUE (K.get_value(f), f.numpy(), float(f) ... in the test of an
+  `if` / `while` / conditional expression) is frozen at trace time, so later
+  updates never reach the graph.  Syntax-tree rule over the quantizer
+  modules: no branch test converts an expression that mentions
+  `qnoise_factor` to a Python number."""
+  import ast
+  mods = [repo.module(quant.QMOD)]
+  bq = repo.modules.get("qkeras.base_quantizer")
+  if bq is not None:
+    mods.append(bq)
+  readers = ("get_value", "numpy", "float", "int", "bool", "eval", "item")
+  n = 0
+  for m in mods:
+    for node in ast.walk(m.tree):
+      if isinstance(node, (ast.If, ast.While, ast.IfExp)):
+        test = node.test
+      elif isinstance(node, ast.Assert):
+        continue
+      else:
+        continue
+      n += 1
+      bad = []
+      for c in ast.walk(test):
+        if isinstance(c, ast.Call):
+          fname = c.func.attr if isinstance(c.func, ast.Attribute) else (
+              c.func.id if isinstance(c.func, ast.Name) else "")
+          if fname in readers:
+            scope = [c.func.value] if isinstance(
+                c.func, ast.Attribute) and fname in ("numpy", "item",
+                                                     "eval") else list(c.args)
+            if any(isinstance(x, ast.Attribute) and x.attr == "qnoise_factor"
+                   for a in scope for x in ast.walk(a)):
+              bad.append(ast.unparse(c))
+      rep.check(not bad, "R8", "%s::%s" % (m.relpath, "qnoise_factor"),
+                "python-branch-on-the-factor's-value",
+                "the branch test `%s` reads the noise factor as a Python "
+                "number (%s): in a traced step the decision is frozen at "
+                "trace time and later update_qnoise_factor() calls have no "
+                "effect" % (ast.unparse(test)[:120], ", ".join(bad)),
+                loc=m.loc(node))
+  return n
+
+
 def rule_variable_isolation(rep, repo, rule="R2"):
   """Every quantizer owns its noise factor: (a) two variable-backed
   quantizers that were given the SAME var_name, (b) a quantizer whose factor
@@ -961,6 +1007,8 @@ def rule_scheduler_run(rep, repo, tier):
 
 def run(rep, repo, tier):
   mod = repo.module(quant.QMOD)
+  if rule_factor_steers_no_python_branch(rep, repo) < 50:
+    raise AnalysisError("instance-count branch tests of the quantizer modules")
   rep.trusted.append("tf.Variable(initial_value) holds initial_value; "
                      "Variable.assign(v) stores v (TensorFlow semantics)")
   rule_mixing(rep, repo, mod, tier)
